@@ -59,6 +59,11 @@ type provider struct {
 	// generous: with an event the provider also hands back the auth events of that event that it is scripted to
 	// return (more events than asked for, the asked one among them)
 	generous bool
+	// over: one answer carries the asked events that are returned AND everything below them that is returned
+	// (Answer(.., "over", ..) of FedVerify.tla: the whole auth chain in one call)
+	over bool
+	// transient: "errors" / "nothing" - every call fails that way while set (FedVerify_gen PickBackfill: the first round)
+	transient string
 }
 
 func newProvider(w *world) *provider {
@@ -78,8 +83,28 @@ func (p *provider) ProvideEvents(roomVer gmsl.RoomVersion, eventIDs []string) ([
 	p.mu.Lock()
 	defer p.mu.Unlock()
 	p.calls++
+	if p.transient != "" {
+		for _, id := range eventIDs {
+			p.asked[id] = true
+		}
+		if p.transient == "errors" {
+			return nil, errProvider
+		}
+		return nil, nil
+	}
 	var out []gmsl.PDU
 	failed := false
+	given := map[int]bool{}
+	var below func(i int)
+	below = func(i int) {
+		for _, a := range p.w.r.ev(i).Auth {
+			if p.w.r.ev(a).P == "returns" && !given[a] {
+				given[a] = true
+				out = append(out, p.w.pdu[a])
+				below(a)
+			}
+		}
+	}
 	for _, id := range eventIDs {
 		p.asked[id] = true
 		i, ok := p.w.byID[id]
@@ -93,6 +118,14 @@ func (p *provider) ProvideEvents(roomVer gmsl.RoomVersion, eventIDs []string) ([
 		}
 		switch p.w.r.ev(i).P {
 		case "returns":
+			if p.over {
+				if !given[i] {
+					given[i] = true
+					out = append(out, p.w.pdu[i])
+					below(i)
+				}
+				continue
+			}
 			out = append(out, p.w.pdu[i])
 			if p.generous {
 				for _, a := range p.w.r.ev(i).Auth {
@@ -164,13 +197,26 @@ type backfillRequester struct {
 	*stateProvider
 	prov *provider
 	pdus []spec.RawJSON
+	// servers: the servers at the event (default: one); every one of them answers with pdus.  The provider's
+	// transient fault ends when the second server is asked.
+	servers []spec.ServerName
+	asked   int
 }
 
 func (b *backfillRequester) ServersAtEvent(ctx context.Context, roomID, eventID string) []spec.ServerName {
+	if b.servers != nil {
+		return b.servers
+	}
 	return []spec.ServerName{"hs2"}
 }
 
 func (b *backfillRequester) Backfill(ctx context.Context, origin, server spec.ServerName, roomID string, limit int, fromEventIDs []string) (gmsl.Transaction, error) {
+	b.asked++
+	if b.asked > 1 {
+		b.prov.mu.Lock()
+		b.prov.transient = ""
+		b.prov.mu.Unlock()
+	}
 	t := gmsl.Transaction{Origin: server}
 	for _, p := range b.pdus {
 		t.PDUs = append(t.PDUs, []byte(p))
